@@ -124,6 +124,49 @@ def run_seed(args):
         shutil.rmtree(work, ignore_errors=True)
 
 
+def run_benign(args):
+    """Apply one stored behaviour-preserving refactoring to a scratch copy and run checks on it: every one
+    has to stay silent (exit 0)."""
+    bid, base, py, props = args
+    d = os.path.join(VERIF, 'benign', bid)
+    work = tempfile.mkdtemp(prefix='petlsa_benign_')
+    try:
+        shutil.copytree(os.path.join(base, 'petl'), os.path.join(work, 'petl'),
+                        ignore=shutil.ignore_patterns('__pycache__', 'test'))
+        p = subprocess.run(['patch', '-p1', '-s', '--no-backup-if-mismatch', '-d', work, '-i', os.path.join(d, 'patch.diff')],
+                           stdout=subprocess.PIPE, stderr=subprocess.STDOUT, universal_newlines=True)
+        if p.returncode != 0:
+            return bid, 'STALE', 'patch does not apply to the current tree'
+        bad = []
+        for prop in props:
+            r = subprocess.run([py, '-B', '-m', 'petlsa.cli', prop, 'quick', '--root', work, '--no-write'],
+                               cwd=VERIF, stdout=subprocess.PIPE, stderr=subprocess.STDOUT, universal_newlines=True,
+                               timeout=600)
+            if r.returncode != 0:
+                lines = [l for l in r.stdout.splitlines() if ' violated in ' in l or 'ANALYSIS-ERROR' in l]
+                bad.append('%s(rc=%d) %s' % (prop, r.returncode, (lines or [''])[0][:160]))
+        return bid, ('FALSE-ALARM' if bad else 'SILENT'), '; '.join(bad)
+    finally:
+        shutil.rmtree(work, ignore_errors=True)
+
+
+def benign_ids(prop=None):
+    bd = os.path.join(VERIF, 'benign')
+    out = []
+    if not os.path.isdir(bd):
+        return out
+    for bid in sorted(os.listdir(bd)):
+        mp = os.path.join(bd, bid, 'meta.json')
+        if os.path.exists(mp):
+            out.append(bid)
+    return out
+
+
+def claimed_props():
+    m = json.load(open(os.path.join(VERIF, 'MANIFEST.json')))
+    return [c['property_id'] for c in m['checks']]
+
+
 def seeds_for(prop=None):
     sd = os.path.join(VERIF, 'seeded')
     out = []
@@ -155,6 +198,12 @@ def checker_validation(prop, root, jobs=16):
     for sid, p, verdict, info in sres:
         res['seeds'][verdict] = res['seeds'].get(verdict, 0) + 1
     res['seed_details'] = {sid: '%s %s' % (v, info) for sid, p, v, info in sres}
+    with concurrent.futures.ThreadPoolExecutor(max_workers=jobs) as ex:
+        bres = list(ex.map(run_benign, [(bid, root, py, [prop]) for bid in benign_ids()]))
+    res['benign_refactorings'] = {}
+    for bid, v, info in bres:
+        res['benign_refactorings'][v] = res['benign_refactorings'].get(v, 0) + 1
+    res['benign_problems'] = ['%s %s' % (bid, info) for bid, v, info in bres if v == 'FALSE-ALARM']
     return res
 
 
@@ -170,6 +219,19 @@ def main(argv, root):
             verbose = True
         else:
             props.append(a.upper())
+    if props and props[0] == 'BENIGN':
+        py = sys.executable
+        ids = benign_ids()
+        cl = claimed_props()
+        with concurrent.futures.ThreadPoolExecutor(max_workers=jobs) as ex:
+            bres = list(ex.map(run_benign, [(bid, root, py, cl) for bid in ids]))
+        tally = {}
+        for bid, v, info in bres:
+            tally[v] = tally.get(v, 0) + 1
+            if v != 'SILENT' or verbose:
+                print('%-12s %s %s' % (v, bid, info))
+        print('benign refactorings: %d x %d checks: %s' % (len(bres), len(cl), tally))
+        return 1 if tally.get('FALSE-ALARM') else 0
     if props and props[0] == 'SEEDS':
         py = sys.executable
         ids = seeds_for(None)
